@@ -231,3 +231,78 @@ Proof.
   - pose proof (client_run_version evs (c_new v t)). cbn [c_new c_ver] in H0. subst c. lia.
   - subst c. apply client_run_next_id. cbn. reflexivity.
 Qed.
+
+(* ------------------------------------------------------------------ a stream delivered with pauses *)
+
+Lemma parse_frames_app_prefix : forall fuel s1 s2,
+  exists rest, parse_frames fuel (s1 ++ s2) = parse_frames fuel s1 ++ rest.
+Proof.
+  induction fuel as [|f IH]; intros s1 s2; cbn [parse_frames].
+  - exists []. reflexivity.
+  - destruct (Nat.ltb_spec (length s1) 10) as [L|G].
+    + eexists. cbn [app]. reflexivity.
+    + rewrite app_length. destruct (Nat.ltb_spec (length s1 + length s2) 10); [lia|].
+      assert (F : firstn 10 (s1 ++ s2) = firstn 10 s1).
+      { rewrite firstn_app. replace (10 - length s1)%nat with 0%nat by lia.
+        rewrite firstn_O. apply app_nil_r. }
+      rewrite F. destruct (hdr_decode (firstn 10 s1)) as [h|e]; [|exists []; reflexivity].
+      rewrite skipn_app.
+      destruct (IH (skipn (10 + N.to_nat (h_len h)) s1)
+                   (skipn (10 + N.to_nat (h_len h) - length s1) s2)) as [rest R].
+      exists rest. rewrite R. reflexivity.
+Qed.
+
+Lemma parse_frames_fuel : forall f1 f2 s, (length s <= f1)%nat -> (length s <= f2)%nat ->
+  parse_frames f1 s = parse_frames f2 s.
+Proof.
+  induction f1 as [|f1 IH]; intros f2 s L1 L2.
+  - destruct s; [|cbn in L1; lia]. destruct f2; reflexivity.
+  - destruct f2 as [|f2].
+    + destruct s; [reflexivity | cbn in L2; lia].
+    + cbn [parse_frames]. destruct (Nat.ltb_spec (length s) 10) as [L|G]; [reflexivity|].
+      destruct (hdr_decode (firstn 10 s)) as [h|e]; [|reflexivity].
+      f_equal. apply IH; rewrite skipn_length; lia.
+Qed.
+
+(* the headers reported for a stream are laid out frame by frame: the first is the decoding of
+   its first 10 bytes, the others those of the stream after that frame *)
+Lemma frame_headers_unfold : forall s h t, frame_headers s = h :: t ->
+  hdr_decode (firstn 10 s) = HOk h /\ t = frame_headers (skipn (10 + N.to_nat (h_len h)) s).
+Proof.
+  intros s h t H. unfold frame_headers in *. destruct (length s) as [|n] eqn:E; [discriminate|].
+  cbn [parse_frames] in H. rewrite E in H.
+  destruct (Nat.ltb_spec (S n) 10) as [L|G]; [discriminate|].
+  destruct (hdr_decode (firstn 10 s)) as [h'|e]; [|discriminate].
+  injection H as <- <-. split; [reflexivity|].
+  apply parse_frames_fuel; rewrite skipn_length; lia.
+Qed.
+
+(* whatever the pauses, what the read side reports is an initial part of the headers that sit at
+   the frame boundaries of the byte stream the peer sent: no header is ever decoded from bytes that
+   do not start a frame *)
+Lemma client_paused_log_prefix : forall c pieces,
+  exists rest, frame_headers (concat pieces) = client_paused_log c pieces ++ rest.
+Proof.
+  intros c pieces. unfold client_paused_log.
+  destruct (reading c); [|eexists; cbn [app]; reflexivity].
+  assert (P : exists rest, frame_headers (concat pieces) = frame_headers (hd [] pieces) ++ rest).
+  { destruct pieces as [|p ps]; cbn [concat hd].
+    - exists []. reflexivity.
+    - unfold frame_headers.
+      destruct (parse_frames_app_prefix (length (p ++ concat ps)) p (concat ps)) as [rest R].
+      exists rest. rewrite R. f_equal. apply parse_frames_fuel; [rewrite app_length; lia | lia]. }
+  destruct P as [rest R]. destruct (c_closed c); [|exists rest; exact R].
+  exists (skipn 1 (frame_headers (hd [] pieces)) ++ rest).
+  rewrite app_assoc, firstn_skipn. exact R.
+Qed.
+
+(* a pause inside the first header: nothing is reported at all *)
+Lemma client_paused_log_split_header : forall c p ps, (length p < 10)%nat ->
+  client_paused_log c (p :: ps) = [].
+Proof.
+  intros c p ps L. unfold client_paused_log, frame_headers. cbn [hd].
+  assert (E : parse_frames (length p) p = []).
+  { destruct (length p) as [|n] eqn:E; [reflexivity|]. cbn [parse_frames]. rewrite E.
+    destruct (Nat.ltb_spec (S n) 10); [reflexivity|lia]. }
+  rewrite E. destruct (reading c); [|reflexivity]. destruct (c_closed c); reflexivity.
+Qed.
